@@ -1,1 +1,1 @@
-LINK := small
+LINK := full
